@@ -3,6 +3,7 @@ package vuego
 import (
 	"fmt"
 	"reflect"
+	"sort"
 	"strconv"
 	"strings"
 	"sync"
@@ -322,6 +323,11 @@ func (s *Stack) ForEach(expr string, fn func(index int, value any) error) error 
 		return nil
 	case reflect.Map:
 		keys := rv.MapKeys()
+		// Go's map iteration order is random; iterate in key order so that
+		// rendering the same data twice gives the same output
+		sort.Slice(keys, func(a, b int) bool {
+			return mapKeyLess(keys[a], keys[b])
+		})
 		for i, key := range keys {
 			if err := fn(i, rv.MapIndex(key).Interface()); err != nil {
 				return err
@@ -335,6 +341,24 @@ func (s *Stack) ForEach(expr string, fn func(index int, value any) error) error 
 }
 
 // Helpers
+
+// mapKeyLess orders map keys: numbers numerically, strings lexically,
+// anything else by its printed form.
+func mapKeyLess(a, b reflect.Value) bool {
+	if a.Kind() == b.Kind() {
+		switch a.Kind() {
+		case reflect.String:
+			return a.String() < b.String()
+		case reflect.Int, reflect.Int8, reflect.Int16, reflect.Int32, reflect.Int64:
+			return a.Int() < b.Int()
+		case reflect.Uint, reflect.Uint8, reflect.Uint16, reflect.Uint32, reflect.Uint64, reflect.Uintptr:
+			return a.Uint() < b.Uint()
+		case reflect.Float32, reflect.Float64:
+			return a.Float() < b.Float()
+		}
+	}
+	return fmt.Sprint(a) < fmt.Sprint(b)
+}
 
 // splitPathImpl is the actual implementation of path splitting.
 // Called by getCachedPath which caches the results.
